@@ -5,6 +5,7 @@ package internal
 import (
 	"net/url"
 	"os"
+	"strings"
 
 	"google.golang.org/protobuf/encoding/protojson"
 
@@ -29,18 +30,47 @@ const (
 // arbitrary (possibly empty) strings.
 // level 0: every part present (only the strings vary); 1: callback / secret source / scopes /
 // id-token config present or absent; 2: additionally jwks source, logout, redis, timeouts.
-func kitOIDC(n string, level int) *oidcv1.OIDCConfig {
+func kitOIDC(n string, level int) *oidcv1.OIDCConfig { return kitOIDCv(n, level, level >= 2, "https://idp/e") }
+
+// kitOIDCv: varyURIs lets the three endpoint URIs be absent or valid; otherwise they are all fixedURI.
+func kitOIDCv(n string, level int, varyURIs bool, fixedURI string) *oidcv1.OIDCConfig {
 	sb := vn.Bound("cfg-string-bytes", 3)
+	// endpoint URIs: absent or a valid URL, so that the uninterpreted url.Parse agrees with the
+	// real one when a witness is replayed
+	uri := func(name string) string {
+		if !varyURIs || !(strings.HasSuffix(name, "-authorization-uri") || strings.HasSuffix(name, "-token-uri") || strings.HasSuffix(name, "-configuration-uri")) {
+			if strings.HasSuffix(name, "-configuration-uri") {
+				return ""
+			}
+			return fixedURI
+		}
+		s := vn.StringIn(name, 13, alphaURL+"htps")
+		vn.Assume(vn.Or(s == "", s == "https://idp/e"))
+		_, err := url.Parse(s)
+		vn.Assume(err == nil)
+		return s
+	}
 	c := &oidcv1.OIDCConfig{
-		ConfigurationUri: vn.StringIn(n+"-configuration-uri", sb, alphaURL),
-		AuthorizationUri: vn.StringIn(n+"-authorization-uri", sb, alphaURL),
-		TokenUri:         vn.StringIn(n+"-token-uri", sb, alphaURL),
+		ConfigurationUri: uri(n + "-configuration-uri"),
+		AuthorizationUri: uri(n + "-authorization-uri"),
+		TokenUri:         uri(n + "-token-uri"),
 		ClientId:         vn.StringIn(n+"-client-id", sb, alphaLower+":"),
 		CookieNamePrefix: vn.StringIn(n+"-cookie-prefix", 2, alphaLower),
 	}
-	// callback: absent, or scheme://host + arbitrary path (possibly "" or "/")
-	if level == 0 || vn.Choice(n+"-has-callback", 2) == 1 {
-		c.CallbackUri = vn.URL("https", vn.StringIn(n+"-callback-host", sb, alphaLower), "", vn.StringIn(n+"-callback-path", sb+1, alphaLower+"/"), "")
+	// callback: absent, scheme://host (no path), or scheme://host/<segment> (segment may be empty:
+	// the root path)
+	cbKind := 1
+	if level >= 1 {
+		cbKind = vn.Choice(n+"-has-callback", 3)
+	}
+	if cbKind != 0 {
+		host := vn.StringIn(n+"-callback-host", sb, alphaLower)
+		vn.Assume(len(host) > 0)
+		path := ""
+		if cbKind == 1 {
+			path = "/" + vn.StringIn(n+"-callback-path", sb, alphaLower+"/")
+		}
+		c.CallbackUri = vn.URL("https", host, "", path, "")
 	}
 	secretKind := 1
 	if level >= 1 {
@@ -60,7 +90,7 @@ func kitOIDC(n string, level int) *oidcv1.OIDCConfig {
 	case 1:
 		c.JwksConfig = &oidcv1.OIDCConfig_Jwks{Jwks: vn.StringIn(n+"-jwks", sb, alphaLower)}
 	case 2:
-		c.JwksConfig = &oidcv1.OIDCConfig_JwksFetcher{JwksFetcher: &oidcv1.OIDCConfig_JwksFetcherConfig{JwksUri: vn.StringIn(n+"-jwks-uri", sb, alphaURL)}}
+		c.JwksConfig = &oidcv1.OIDCConfig_JwksFetcher{JwksFetcher: &oidcv1.OIDCConfig_JwksFetcherConfig{JwksUri: uri(n + "-jwks-uri")}}
 	}
 	scopesKind := 0
 	if level >= 1 {
@@ -77,10 +107,12 @@ func kitOIDC(n string, level int) *oidcv1.OIDCConfig {
 	}
 	if level >= 2 {
 		if vn.Choice(n+"-logout", 2) == 1 {
-			c.Logout = &oidcv1.LogoutConfig{Path: vn.StringIn(n+"-logout-path", sb+1, alphaLower+"/"), RedirectUri: vn.StringIn(n+"-logout-redirect", sb, alphaURL)}
+			c.Logout = &oidcv1.LogoutConfig{Path: vn.StringIn(n+"-logout-path", sb+1, alphaLower+"/"), RedirectUri: uri(n + "-logout-redirect")}
 		}
 		if vn.Choice(n+"-redis", 2) == 1 {
-			c.RedisSessionStoreConfig = &oidcv1.RedisConfig{ServerUri: vn.StringIn(n+"-redis-uri", sb+3, alphaURL)}
+			ru := vn.StringIn(n+"-redis-uri", 9, alphaURL)
+			vn.Assume(vn.Or(ru == "", ru == "redis://r", ru == "tcp://r"))
+			c.RedisSessionStoreConfig = &oidcv1.RedisConfig{ServerUri: ru}
 		}
 		c.AbsoluteSessionTimeout = uint32(vn.Int(n+"-absolute-timeout", 0, 4294967295))
 	}
@@ -99,12 +131,14 @@ func kitFilter(n string, level int) *configv1.Filter {
 	return &configv1.Filter{Type: &configv1.Filter_OidcOverride{OidcOverride: kitOIDC(n, level)}}
 }
 
+func kitPick(name string, opts ...string) string { return opts[vn.Choice(name, len(opts))] }
+
 func kitBaseConfig() *configv1.Config {
 	return &configv1.Config{
-		ListenAddress:    vn.StringIn("listen-address", 3, "0123456789.:"),
+		ListenAddress:    kitPick("listen-address", "0.0.0.0", "", "nope"),
 		ListenPort:       int32(vn.Int("listen-port", -1, 70000)),
 		HealthListenPort: int32(vn.Int("health-port", -1, 70000)),
-		LogLevel:         vn.StringIn("log-level", 5, alphaLower),
+		LogLevel:         kitPick("log-level", "info", "", "loud"),
 		Threads:          uint32(vn.Int("threads", 0, 8)),
 	}
 }
@@ -141,9 +175,11 @@ func VerifC17_SingleOIDCFilter() {
 // VerifC17_DefaultAndOverride: a default configuration merged with one override filter.
 func VerifC17_DefaultAndOverride() {
 	cfg := kitBaseConfig()
-	cfg.DefaultOidcConfig = kitOIDC("default", 1)
+	cfg.DefaultOidcConfig = kitOIDCv("default", 1, false, "https://idp/e")
+	ovr0 := kitOIDCv("override", 1, false, "")
+	ovr0.TokenUri = kitPick("override-token-uri", "", "https://other/t")
 	cfg.Chains = []*configv1.FilterChain{{Name: vn.StringIn("chain-name", 2, alphaLower),
-		Filters: []*configv1.Filter{{Type: &configv1.Filter_OidcOverride{OidcOverride: kitOIDC("override", 1)}}}}}
+		Filters: []*configv1.Filter{{Type: &configv1.Filter_OidcOverride{OidcOverride: ovr0}}}}}
 	def, ovr := cfg.DefaultOidcConfig, cfg.Chains[0].Filters[0].GetOidcOverride()
 	wantClientID := def.ClientId
 	if ovr.ClientId != "" {
@@ -190,6 +226,9 @@ func kitLoadAndJudge(cfg *configv1.Config) *configv1.Config {
 	vn.Cover("C17/rejected", err != nil)
 	vn.Cover("C17/accepted", err == nil)
 	if err != nil {
+		if !vn.Symbolic() {
+			vn.Event("rejected: " + err.Error())
+		}
 		return nil
 	}
 	got := &l.Config
